@@ -295,11 +295,15 @@ def _short(x: Any) -> str:
     return s if len(s) < 300 else s[:300] + "..."
 
 
+def programs_for(case: Dict[str, Any]) -> Dict[str, list]:
+    return {"/ws": app_program(case),
+            "/pre": [["recv"], ["send", {"type": "websocket.accept"}],
+                     ["ws_loop", {"echo": True, "tolerate": True}]]}
+
+
 def run_case(case: Dict[str, Any]) -> CaseInfo:
     cfg = {"keep_alive_timeout": T_BIG, "websocket_max_message_size": case["limit"]}
-    programs = {"/ws": app_program(case),
-                "/pre": [["recv"], ["send", {"type": "websocket.accept"}],
-                         ["ws_loop", {"echo": True, "tolerate": True}]]}
+    programs = programs_for(case)
 
     async def sc(env: Any) -> Any:
         return await scenario(env, case)
